@@ -531,7 +531,8 @@ fn parse_number(w: &[u8], at: usize) -> PResult<Tok> {
             Ok(i) => Ok(Tok::Int(i)),
             Err(_) => match s.trim_start_matches('+').parse::<i64>() {
                 Ok(i) => Ok(Tok::Int(i)),
-                Err(_) => perr(at, format!("integer out of range {s:?}")),
+                // §7.3.3 / Annex C: an integer beyond the implementation limit is converted to a real
+                Err(_) => s.trim_start_matches('+').parse::<f64>().map(Tok::Real).map_err(|_| PErr { at, msg: format!("bad integer {s:?}") }),
             },
         }
     } else if dots == 1 {
